@@ -34,7 +34,7 @@ def main():
     only = sys.argv[1:]
     for d in sorted(glob.glob("/tmp/wt/C*.out/*/")):
         prop = d.split("/")[3].split(".")[0]
-        if prop[-1] in "tuvw":
+        if prop[-1] in "tuvwx":
             continue                      # refactor twins are imported by import_twins.py
         n = d.rstrip("/").split("/")[-1]
         sid = f"{prop}-{n}"
